@@ -98,3 +98,13 @@ Fixpoint nondecr (eps : Qc) (l : list Qc) : bool :=
 
 Definition eps9 : Qc := Q2Qc (1 # 1000000000).
 Definition eps8 : Qc := Q2Qc (1 # 100000000).
+
+(* tucker_als(init="nvecs"): the returned starting factor of mode n spans an invariant subspace of the mode-n Gram matrix of the DATA
+   (G U = U (U^T G U) within eps * max(1, trace G)) with orthonormal columns — whatever dtype holds the data, whatever eigen-solver *)
+Definition invariant_ok (eps : Qc) (X : dense Qc) (n : nat) (U : qmatrix) : bool :=
+  let G := qgram X n in
+  let I := length G in
+  let r := ncols U in
+  let GU := mmul q0 Qcplus Qcmult G U I r in
+  let S := mmul q0 Qcplus Qcmult (mtrans q0 U I r) GU I r in
+  orthob eps U I r && qmat_close (eps * qmax q1 (qtrace G)) GU (mmul q0 Qcplus Qcmult U S r r).
